@@ -601,9 +601,25 @@ def check(run, prog, tier):
                     r = strip(r["e"])
                 if r.get("k") == "Ref" and r.get("d") == "func":
                     installed.setdefault(r.get("n"), (f, n.get("l")))
+                elif r.get("k") == "Ref" and r.get("d") == "param":
+                    pass        # a helper: its call sites are read below
                 else:
                     nl += 1
                     run.ob("C05-l", "slot:%s:%s" % (f.name, n.get("l")), None, "`%s`: the function installed is not named" % show(n)[:60], f.file, n.get("l"), f.name)
+    # ... or handed to a helper that stores its parameter there
+    for f in sorted(prog.functions(), key=lambda x: (x.file, x.line)):
+        for b, i, n in f.nodes():
+            if n.get("k") == "Asg" and n.get("op") == "=" and strip(n["L"]).get("k") == "Mem" and strip(n["L"]).get("f") == "error_handler" and strip(n["R"]).get("d") == "param":
+                pis = [p_.get("pi") for p_ in f.params or [] if p_.get("id") == strip(n["R"]).get("id")]
+                for g in prog.functions():
+                    for b2, i2, n2 in g.calls(f.name):
+                        if pis and len(n2.get("args", [])) > pis[0]:
+                            r = strip(n2["args"][pis[0]])
+                            while r.get("k") in ("Cast", "Un") and isinstance(r.get("e"), dict):
+                                r = strip(r["e"])
+                            if r.get("k") == "Ref" and r.get("d") == "func":
+                                installed.setdefault(r.get("n"), (g, n2.get("l")))
+    nl += sum(1 for k_ in installed if prog.func(k_) is None)     # installed but not defined in the analysed units: still an instance
     for name, (inst, line) in sorted(installed.items()):
         h = prog.func(name)
         if h is None:
